@@ -71,6 +71,9 @@ func Boundary() Spec {
 		fix(Take(B, NCT, "1500000", false)),
 		fix(Msg("DefineResolver(B,public)", &data.MsgDefineResolver{Definer: B.String(), ResolverUrl: "https://pub.example", Public: true})),
 		fix(Msg("DefineResolver(C,private)", &data.MsgDefineResolver{Definer: C.String(), ResolverUrl: "https://priv.example", Public: false})),
+		// the shortest URL the message validation accepts, and one with a trailing slash
+		fix(Msg("DefineResolver(C,url=/)", &data.MsgDefineResolver{Definer: C.String(), ResolverUrl: "/", Public: false})),
+		fix(Msg("DefineResolver(D,url=trailing-slash)", &data.MsgDefineResolver{Definer: D.String(), ResolverUrl: "https://priv.example/", Public: false})),
 		fix(Msg("Anchor(B,R1)", &data.MsgAnchor{Sender: B.String(), ContentHash: RawHash(1)})),
 		fix(Msg("Anchor(B,raw,digest-algorithm=2)", &data.MsgAnchor{Sender: B.String(), ContentHash: &data.ContentHash{Raw: &data.ContentHash_Raw{Hash: make([]byte, 32), DigestAlgorithm: 2, FileExtension: "bin"}}})),
 		fix(Msg("Anchor(B,raw,64-byte-hash,digest-algorithm=255)", &data.MsgAnchor{Sender: B.String(), ContentHash: &data.ContentHash{Raw: &data.ContentHash_Raw{Hash: make([]byte, 64), DigestAlgorithm: 255, FileExtension: "a1"}}})),
